@@ -19,6 +19,12 @@ fn main() {
         ctx.save_previous_result = true;
         args.remove(0);
     }
+    // --now <unix seconds>: the context's clock is set to this instant and left alone (eval_query instead of helpers::eval)
+    let mut fixed_now: Option<i64> = None;
+    if args.len() >= 2 && args[0] == "--now" {
+        fixed_now = args[1].parse::<i64>().ok();
+        args.drain(0..2);
+    }
     // --defs "<definitions text>": extra user definitions loaded on top of the bundled database
     while args.len() >= 2 && args[0] == "--defs" {
         let r = ctx.load_definitions(&args[1]);
@@ -34,7 +40,16 @@ fn main() {
             continue;
         }
         let r = catch_unwind(AssertUnwindSafe(|| {
-            let res = rink_core::eval(&mut ctx, line);
+            let res = match fixed_now {
+                Some(t) => {
+                    use chrono::TimeZone;
+                    ctx.set_time(chrono::Utc.timestamp_opt(t, 0).unwrap().with_timezone(&chrono::Local));
+                    let mut iter = rink_core::parsing::text_query::TokenIterator::new(line.trim()).peekable();
+                    let q = rink_core::parsing::text_query::parse_query(&mut iter);
+                    ctx.eval_query(&q)
+                }
+                None => rink_core::eval(&mut ctx, line),
+            };
             let mut text = match &res {
                 Ok(v) => format!("{}", v),
                 Err(e) => format!("ERR {}", e),
